@@ -396,6 +396,7 @@ impl<'a> GeneratorState<'a> {
                     }
                     _ => {
                         let mut acc_in_use = self.acc_in_use;
+                        let mut flags_describe_a = true;
                         let signed;
                         match right {
                             ExprType::Absolute(_, _, _)
@@ -427,13 +428,16 @@ impl<'a> GeneratorState<'a> {
                                 signed = *s;
                                 acc_in_use = false;
                                 self.acc_in_use = false;
+                                // The value is already there: the flags describe it only if
+                                // they are known to (not after a function call)
+                                flags_describe_a = self.flags == FlagsState::A;
                             }
                             _ => unreachable!(),
                         };
                         match left {
                             ExprType::Absolute(a, b, c) => {
                                 self.asm(STA, left, pos, high_byte)?;
-                                self.flags = if high_byte {
+                                self.flags = if high_byte || !flags_describe_a {
                                     FlagsState::Unknown
                                 } else {
                                     FlagsState::Absolute(a.clone(), *b, *c)
@@ -441,7 +445,7 @@ impl<'a> GeneratorState<'a> {
                             }
                             ExprType::AbsoluteX(s) => {
                                 self.asm(STA, left, pos, high_byte)?;
-                                self.flags = if high_byte {
+                                self.flags = if high_byte || !flags_describe_a {
                                     FlagsState::Unknown
                                 } else {
                                     FlagsState::AbsoluteX(s.clone())
@@ -449,7 +453,7 @@ impl<'a> GeneratorState<'a> {
                             }
                             ExprType::AbsoluteY(s) => {
                                 self.asm(STA, left, pos, high_byte)?;
-                                self.flags = if high_byte {
+                                self.flags = if high_byte || !flags_describe_a {
                                     FlagsState::Unknown
                                 } else {
                                     FlagsState::AbsoluteY(s.clone())
